@@ -108,7 +108,11 @@ func (p *Parser) encodeString(header *parser.PacketHeader, v any) ([]byte, error
 
 func (p *Parser) encodeBinary(header *parser.PacketHeader, v any) (buffers [][]byte, err error) {
 	numBuffers := 0
-	buffers, err = p.deconstructPacket(reflect.ValueOf(v), &numBuffers)
+	// Binary values are replaced by placeholders in place;
+	// put the caller's values back when we're done.
+	r := new(restorer)
+	defer r.restore()
+	buffers, err = p.deconstructPacket(reflect.ValueOf(v), &numBuffers, r)
 	if err != nil {
 		return nil, err
 	}
